@@ -37,20 +37,24 @@ type pt struct {
 	Field string  `json:"field"`
 	Slot  int     `json:"slot"`
 	Val   float64 `json:"val"`
+	DC    string  `json:"dc,omitempty"` // second tag (not grouped by): the same host group then lives on two shards
 }
 
 // f1 is a sum field known to every series, f2 a max field that only hosts b and c ever report (so with
 // several shards/nodes some of them never hear of f2). Values are distinct powers of two: every partial
 // sum / max identifies the subset it came from, and order-by keys never tie.
 var alphabet = []pt{
-	{"a", "f1", 0, 1},
-	{"a", "f1", 1, 2},
-	{"a", "f1", 0, 4}, // second write to the same series/slot
-	{"b", "f1", 0, 8},
-	{"b", "f2", 0, 16},
-	{"b", "f2", 1, 32},
-	{"c", "f1", 1, 64},
-	{"c", "f2", 0, 128},
+	{"a", "f1", 0, 1, ""},
+	{"a", "f1", 1, 2, ""},
+	{"a", "f1", 0, 4, ""}, // second write to the same series/slot
+	{"b", "f1", 0, 8, ""},
+	{"b", "f2", 0, 16, ""},
+	{"b", "f2", 1, 32, ""},
+	{"c", "f1", 1, 64, ""},
+	{"c", "f2", 0, 128, ""},
+	// host b again, but another series (dc=2) that reports only f2: the group host=b then exists on two shards with
+	// different field sets (one node creates the group without f2, another one brings f2 for it later)
+	{"b", "f2", 0, 256, "2"},
 }
 
 var fieldType = map[string]string{"f1": "sum", "f2": "max"}
@@ -232,7 +236,11 @@ func (w *world) write(data []int, lay layoutT) (metric string, used map[int]bool
 	used = map[int]bool{}
 	for _, di := range data {
 		p := alphabet[di]
-		vp := vbox.Point{Metric: metric, Tags: map[string]string{"host": p.Host}, Field: p.Field, Type: fieldType[p.Field],
+		tags := map[string]string{"host": p.Host}
+		if p.DC != "" {
+			tags["dc"] = p.DC
+		}
+		vp := vbox.Point{Metric: metric, Tags: tags, Field: p.Field, Type: fieldType[p.Field],
 			Value: p.Val, Timestamp: w.base + int64(p.Slot)*10_000 + 3000}
 		idx, block, err := vbox.Route(vp, int32(lay.NumShards))
 		if err != nil {
@@ -430,6 +438,7 @@ func main() {
 		return
 	}
 	// vacuity guard: the hosts of the alphabet must really be spread by the routing code
+	splitHost := false
 	for n := int32(2); n <= 3; n++ {
 		seen := map[int]bool{}
 		for _, h := range []string{"a", "b", "c"} {
@@ -440,9 +449,18 @@ func main() {
 			seen[idx] = true
 			rep.Outcome(fmt.Sprintf("route:%d:%s->%d", n, h, idx))
 		}
+		b1, _, _ := vbox.Route(vbox.Point{Metric: "probe", Tags: map[string]string{"host": "b"}, Field: "f1", Type: "sum", Value: 1, Timestamp: base}, n)
+		b2, _, _ := vbox.Route(vbox.Point{Metric: "probe", Tags: map[string]string{"host": "b", "dc": "2"}, Field: "f2", Type: "max", Value: 1, Timestamp: base}, n)
+		rep.Outcome(fmt.Sprintf("route:%d:b->%d b/dc=2->%d", n, b1, b2))
+		if b1 != b2 {
+			splitHost = true
+		}
 		if len(seen) < 2 {
 			vevid.Fatal("vacuous: the routing code sends hosts a,b,c to one shard of %d - sharding would not be exercised", n)
 		}
+	}
+	if !splitHost {
+		vevid.Fatal("vacuous: the routing code keeps host=b and host=b,dc=2 on one shard for every shard count")
 	}
 	maxPts := 3
 	if f.Thorough() {
